@@ -101,3 +101,23 @@ def validate_with_deviations(v, spec, records, by_id, tag, describe):
         else:
             v.violation("%s: %s" % (describe(rid), "; ".join(reasons)[:600]), by_id.get(rid))
     return bad
+
+
+def case_from_env_json(e, cid):
+    """A complete env record exported by TLC (ToJson(Env)) -> abstract case for the renderer:
+    every item on its own line (the MC modules number lines that way)."""
+    files = {}
+    for f in e["files"]:
+        items = []
+        for it in f["items"]:
+            it = dict(it)
+            it["g"] = bool(it.get("g"))
+            items.append(it)
+            items.append(pp.nl())
+        files[f["n"]] = items
+    fs_extra = {}
+    for x in e["fs"]:
+        if x["kind"] != "file":
+            fs_extra[x["p"]] = x["kind"]
+    return {"id": cid, "files": files, "top": e["top"], "incdirs": list(e["incdirs"]), "ign": bool(e["ign"]),
+            "strip": bool(e["strip"]), "predef": list(e["predef"]), "fs_extra": fs_extra}
